@@ -136,7 +136,7 @@ Record Rel0 (cover : bool) (b : bst) (w : sw) (ops : list op) : Prop := mkRel0 {
   r_pname : b_prevname b = w_pname w;
   r_names : b_names b = w_names w;
   r_cover : b_cover b = cover;
-  r_sidx : sidx (b_prev b) = 0;
+  r_sidx : cover = true -> sidx (b_prev b) = 0;
   r_last : match w_last w with
            | Some (ol, oc) => b_hasprev b = true /\ oline (b_prev b) = ol /\ ocol (b_prev b) = oc
            | None => b_hasprev b = false
@@ -174,21 +174,21 @@ Definition nm_id (nm : option Z) : Z := match nm with Some n => n | None => 0 en
 Definition nm_has (nm : option Z) : bool := match nm with Some _ => true | None => false end.
 
 (* appendMappingWithoutRemapping of a mapping on the current line *)
-Lemma rel0_append_raw cover b w ops gc ol oc nm :
-  Rel0 cover b w ops -> gcol (b_prev b) <= gc -> gc <= b_gencol b ->
-  let b' := append_raw b (mkState (gline (b_prev b)) gc 0 ol oc (nm_id nm) (nm_has nm)) in
-  Rel0 cover b' (set_last w ol oc) (ops ++ [OMap gc 0 ol oc nm]) /\
+Lemma rel0_append_raw_si cover b w ops gc si ol oc nm :
+  Rel0 cover b w ops -> gcol (b_prev b) <= gc -> gc <= b_gencol b -> (cover = true -> si = 0) ->
+  let b' := append_raw b (mkState (gline (b_prev b)) gc si ol oc (nm_id nm) (nm_has nm)) in
+  Rel0 cover b' (set_last w ol oc) (ops ++ [OMap gc si ol oc nm]) /\
   gcol (b_prev b') = gc /\ b_linestart b' = b_linestart b.
 Proof.
-  intros [He Hs Hec Hle Hnn Hfno Hline Hcol Hpend Hlen Hploc Hplen Hpname Hnames Hcov Hsidx Hlast] Hge Hgc.
-  set (cur := mkState (gline (b_prev b)) gc 0 ol oc (nm_id nm) (nm_has nm)).
+  intros [He Hs Hec Hle Hnn Hfno Hline Hcol Hpend Hlen Hploc Hplen Hpname Hnames Hcov Hsidx Hlast] Hge Hgc Hsi.
+  set (cur := mkState (gline (b_prev b)) gc si ol oc (nm_id nm) (nm_has nm)).
   cbv zeta. unfold append_raw.
   destruct (appendMapping (last (b_map b) 0) (b_prev b) cur false) as [seg off] eqn:Eapp.
   assert (Hseg : seg = fst (appendMapping (last (b_map b) 0) (b_prev b) cur false)) by (rewrite Eapp; reflexivity).
   unfold set_map.
   split; [|split; [|reflexivity]].
   2:{ cbn [b_prev]. subst cur. destruct nm; reflexivity. }
-  assert (Hcur : next_state (b_prev b) gc 0 ol oc nm =
+  assert (Hcur : next_state (b_prev b) gc si ol oc nm =
                  (cur, if has_name cur then cur
                        else mkState (gline cur) (gcol cur) (sidx cur) (oline cur) (ocol cur) (oname (b_prev b)) false)).
   { unfold next_state. subst cur. destruct nm; reflexivity. }
@@ -208,9 +208,16 @@ Proof.
       * inversion Eapp. cbn [option_map]. f_equal. lia.
       * inversion Eapp. reflexivity.
   - subst cur. destruct nm; cbn; exact Hline.
-  - subst cur. destruct nm; reflexivity.
+  - subst cur. destruct nm; cbn; exact Hsi.
   - subst cur. destruct nm; cbn; auto.
 Qed.
+
+Lemma rel0_append_raw cover b w ops gc ol oc nm :
+  Rel0 cover b w ops -> gcol (b_prev b) <= gc -> gc <= b_gencol b ->
+  let b' := append_raw b (mkState (gline (b_prev b)) gc 0 ol oc (nm_id nm) (nm_has nm)) in
+  Rel0 cover b' (set_last w ol oc) (ops ++ [OMap gc 0 ol oc nm]) /\
+  gcol (b_prev b') = gc /\ b_linestart b' = b_linestart b.
+Proof. intros H H1 H2. apply rel0_append_raw_si; auto. Qed.
 
 Definition w_nl (w : sw) : sw :=
   mkSw (w_line w + 1) 0 (w_pend w) (w_len w) (w_ploc w) (w_plen w) (w_pname w) (w_names w) (w_last w) false.
@@ -236,12 +243,12 @@ Proof.
   - subst p. lia.
 Qed.
 
-Lemma cover_state_rel cover b w ops ol oc :
-  Rel0 cover b w ops -> w_last w = Some (ol, oc) ->
+Lemma cover_state_rel b w ops ol oc :
+  Rel0 true b w ops -> w_last w = Some (ol, oc) ->
   cover_state b = mkState (gline (b_prev b)) 0 0 ol oc (nm_id None) (nm_has None).
 Proof.
   intros H Hl. pose proof (r_last _ _ _ _ H) as HL. rewrite Hl in HL. destruct HL as (_ & <- & <-).
-  unfold cover_state. rewrite (r_sidx _ _ _ _ H). reflexivity.
+  unfold cover_state. rewrite (r_sidx _ _ _ _ H eq_refl). reflexivity.
 Qed.
 
 Lemma set_last_same w ol oc : w_last w = Some (ol, oc) -> set_last w ol oc = w.
@@ -260,7 +267,7 @@ Proof.
     destruct (w_has w) eqn:Ehas; [discriminate|].
     destruct (w_last w) as [[ol oc]|] eqn:Elast; [|congruence].
     cbn [cover_op].
-    rewrite (cover_state_rel _ _ _ _ ol oc H0 Elast).
+    rewrite (cover_state_rel _ _ _ ol oc H0 Elast).
     destruct (rel0_append_raw true b w ops 0 ol oc None H0) as (H1 & _ & _).
     + rewrite (Hz eq_refl). lia.
     + pose proof (r_le _ _ _ _ H0). pose proof (r_nonneg _ _ _ _ H0). lia.
@@ -417,7 +424,7 @@ Proof.
         try (destruct HL as (-> & _)); try rewrite HL; cbn [andb]; rewrite ?app_nil_r; try (split; [exact R1|exact Hle1]).
       rewrite W4 in Rz.
       assert (Elast1 : w_last w1 = Some (ol', oc')) by (rewrite W3; reflexivity).
-      rewrite (cover_state_rel _ _ _ _ ol' oc' R1 Elast1).
+      rewrite (cover_state_rel _ _ _ ol' oc' R1 Elast1).
       destruct (rel0_append_raw true b1 w1 ops1 0 ol' oc' None R1) as (A & B & C).
       - rewrite (Rz eq_refl). lia.
       - pose proof (r_nonneg _ _ _ _ R1). lia.
